@@ -66,6 +66,8 @@ def unjson(v):
             return resolve(v["__fn__"])
         if "__arr__" in v:
             return np.array(unjson(v["__arr__"]), dtype=v.get("dtype", "float64"))
+        if "__bytes_of__" in v:      # another array with the same byte image (other dtype / length)
+            return np.frombuffer(unjson(v["__bytes_of__"]).tobytes(), dtype=v["dtype"]).copy()
         if "__tuple__" in v:
             return tuple(unjson(x) for x in v["__tuple__"])
         if "__statsdict__" in v:
@@ -133,7 +135,7 @@ def gen_fields(g):
     xs = np.arange(w, dtype="float64") * sx + g.get("ox", 0.0)
     if g.get("ydesc"):
         ys = ys[::-1].copy()
-    return dict(data=a, dims=("y", "x"), coords={"y": ys, "x": xs}, attrs={"res": (sx, sy)}, name=g.get("name"),
+    return dict(data=a, dims=("y", "x"), coords={"y": ys, "x": xs}, attrs={} if g.get("nores") else {"res": (sx, sy)}, name=g.get("name"),
                 chunks=tuple(tuple(c) for c in g["chunks"]) if g.get("chunks") else None)
 
 
@@ -145,6 +147,39 @@ def build_da(f):
         data = da.from_array(data, chunks=f["chunks"])
     return xr.DataArray(data, dims=tuple(f["dims"]), coords={k: v.copy() for k, v in f["coords"].items()},
                         attrs=copy.deepcopy(f["attrs"]), name=f["name"])
+
+
+def derive(base, d):
+    """what a caller does with a raster it already holds: an overview, a window, the same raster in other units.
+    All three go through xarray operations that carry the parent's attrs along."""
+    ydim, xdim = base.dims[-2], base.dims[-1]
+    if d["op"] == "stride":
+        return base[::d["sy"], ::d["sx"]]
+    if d["op"] == "window":
+        return base[d["y0"]:d["y1"], d["x0"]:d["x1"]]
+    if d["op"] == "rescale":
+        return base.assign_coords({ydim: base[ydim] * d["k"], xdim: base[xdim] * d["k"]})
+    raise ValueError(d["op"])
+
+
+def build_arg(a, jobpool, live):
+    """argument description -> object; `live` = the objects the caller of this history holds"""
+    if isinstance(a, dict) and "ref" in a:
+        if a["ref"] not in live:
+            live[a["ref"]] = build_da(gen_fields(jobpool[a["ref"]]))
+        return live[a["ref"]]
+    if isinstance(a, dict) and "derive" in a:
+        return derive(build_arg({"ref": a["derive"]["of"]}, jobpool, live), a["derive"])
+    if isinstance(a, dict) and "gen" in a:
+        return build_da(gen_fields(a["gen"]))
+    if isinstance(a, dict) and "dataset" in a:
+        import xarray as xr
+        return xr.Dataset({k: build_da(gen_fields(g)) for k, g in a["dataset"].items()})
+    return unjson(a)
+
+
+def has_derived(spec):
+    return any(isinstance(a, dict) and "derive" in a for a in spec["args"])
 
 
 def fields_of(x):
@@ -290,6 +325,11 @@ def _digest_obj(o, depth=0):
         return "[" + ",".join(_digest_obj(x, depth + 1) for x in xs) + "]"
     if isinstance(o, np.ndarray):
         return "nd:" + h_bytes(np.ascontiguousarray(o).tobytes())
+    if isinstance(o, (np.random.RandomState, np.random.Generator)):
+        st = o.get_state() if isinstance(o, np.random.RandomState) else o.bit_generator.state
+        return "rng:" + h_bytes(pickle.dumps(st))
+    if type(o).__name__ == "Random" and hasattr(o, "getstate"):
+        return "rng:" + h_bytes(pickle.dumps(o.getstate()))
     if callable(o):
         return f"fn@{id(o)}"
     if isinstance(o, float) and o != o:
@@ -338,17 +378,71 @@ def footprint(facts):
     return fp
 
 
-def scribble(res, args, kw, k):
-    """a caller doing what callers do: overwrite the returned buffer, grow the lists it passed in"""
+def arg_aspects(args, kw):
+    """per DataArray argument (Dataset: per variable): digests of the parts of the object the caller keeps"""
+    import xarray as xr
+    np = _np()
+    out = {}
+
+    def one(key, x):
+        d = x.variable._data
+        binding = (id(d), str(x.dtype), repr(getattr(d, "chunks", None)), type(d).__name__)
+        cells = None
+        if isinstance(d, np.ndarray) and d.size <= 20000:
+            cells = h_bytes(np.ascontiguousarray(d).tobytes())
+        out[key] = dict(attrs=_digest_obj(dict(x.attrs)), name=repr(x.name), binding=repr(binding), cells=cells,
+                        coords=_digest_obj({str(k): np.asarray(x[k].values) for k in x.coords}))
+    for i, a in enumerate(list(args) + [kw[k] for k in sorted(kw)]):
+        if isinstance(a, xr.DataArray):
+            one(str(i), a)
+        elif isinstance(a, xr.Dataset):
+            for k in a.data_vars:
+                one(f"{i}.{k}", a[k])
+            out[f"{i}.<ds>"] = dict(attrs=_digest_obj(dict(a.attrs)), name="-", binding="-", cells=None, coords="-")
+    return out
+
+
+def aspects_changed(before, after):
+    ch = set()
+    for k, b in before.items():
+        a = after.get(k)
+        if a is None:
+            continue
+        for asp in ("attrs", "coords", "name", "binding"):
+            if a[asp] != b[asp]:
+                ch.add("param:" + asp)
+        if a["cells"] != b["cells"] and a["binding"] == b["binding"]:
+            ch.add("param:cells")       # (re-binding the array may change the values: zonal.apply)
+    return sorted(ch)
+
+
+def scribble_value(v, depth=0):
+    """overwrite every writable array reachable from a result with a sentinel"""
     import xarray as xr
     np = _np()
     try:
-        if isinstance(res, xr.DataArray) and isinstance(res.data, np.ndarray) and res.data.flags.writeable:
-            res.data[...] = 7 if res.dtype.kind != "f" else -12345.5
-        elif isinstance(res, np.ndarray) and res.flags.writeable:
-            res[...] = 3
+        if isinstance(v, xr.DataArray):
+            if isinstance(v.data, np.ndarray) and v.data.flags.writeable:
+                v.data[...] = 7 if v.dtype.kind != "f" else -12345.5
+        elif isinstance(v, xr.Dataset):
+            for k in v.data_vars:
+                scribble_value(v[k], depth + 1)
+        elif isinstance(v, np.ndarray):
+            if v.flags.writeable and v.dtype.kind in "fiub":
+                v[...] = 3 if v.dtype.kind != "f" else -12345.5
+        elif isinstance(v, (list, tuple)) and depth < 3:
+            for x in v:
+                scribble_value(x, depth + 1)
+        elif isinstance(v, dict) and depth < 3:
+            for x in v.values():
+                scribble_value(x, depth + 1)
     except Exception:  # noqa: BLE001
         pass
+
+
+def scribble(res, args, kw, k):
+    """a caller doing what callers do: overwrite the returned buffer, grow the lists it passed in"""
+    scribble_value(res)
     for v in list(kw.values()) + list(args):
         if isinstance(v, list):
             v.append(k + 90)
@@ -365,6 +459,7 @@ def worker_session(job):
     np = _np()
     pool = {}
     out = []
+    kept = []                 # everything the library handed out so far (the caller still holds it)
     facts = job["facts"]
     for i, spec in enumerate(job["history"]):
         fn = spec["fn"]
@@ -377,28 +472,23 @@ def worker_session(job):
                 random.random()
             out.append(dict(i=i, fn=fn, perturber=True))
             continue
-        args = []
-        for a in spec["args"]:
-            if isinstance(a, dict) and "ref" in a:
-                if a["ref"] not in pool:
-                    pool[a["ref"]] = build_da(gen_fields(job["pool"][a["ref"]]))
-                args.append(pool[a["ref"]])
-            elif isinstance(a, dict) and "gen" in a:
-                args.append(build_da(gen_fields(a["gen"])))
-            elif isinstance(a, dict) and "dataset" in a:
-                import xarray as xr
-                args.append(xr.Dataset({k: build_da(gen_fields(g)) for k, g in a["dataset"].items()}))
-            else:
-                args.append(unjson(a))
+        if fn == "user.scribble_all":
+            for v in kept:
+                scribble_value(v)
+            out.append(dict(i=i, fn=fn, perturber=True))
+            continue
+        args = [build_arg(a, job["pool"], pool) for a in spec["args"]]
         kw = {k: unjson(v) for k, v in spec["kw"].items()}
         snap = os.path.join(job["snapdir"], f"{job['tag']}-{i}.pkl")
-        if job.get("write_snaps", True):
+        if job.get("write_snaps", True) and not has_derived(spec):
             with open(snap, "wb") as fh:
                 pickle.dump(dict(fn=fn, args=[enc(a) for a in args], kw={k: enc(v) for k, v in kw.items()}), fh)
         before = footprint(facts)
+        asp0 = arg_aspects(args, kw)
         res, c, dt = run_one(fn, args, kw)
         after = footprint(facts)
-        dirty = sorted(k for k in after if after[k] != before.get(k))
+        dirty = sorted(k for k in after if after[k] != before.get(k)) + aspects_changed(asp0, arg_aspects(args, kw))
+        kept.append(res)
         if spec.get("scribble"):
             scribble(res, args, kw, i)
         out.append(dict(i=i, fn=fn, canon=c, dirty=dirty, snap=snap, dt=round(dt, 3)))
@@ -406,17 +496,68 @@ def worker_session(job):
 
 
 def worker_fresh(job):
+    """one call in a fresh interpreter: on the pickled snapshot of its arguments, or (calls whose arguments are
+    derived from objects the caller held before) on arguments re-made from their recipe"""
     import dask
     dask.config.set(scheduler="synchronous")
-    with open(job["snap"], "rb") as fh:
-        s = pickle.load(fh)
-    args = [dec(a) for a in s["args"]]
-    kw = {k: dec(v) for k, v in s["kw"].items()}
-    res, c, dt = run_one(s["fn"], args, kw)
+    if job.get("recipe"):
+        spec = job["recipe"]["spec"]
+        live = {}
+        fn = spec["fn"]
+        args = [build_arg(a, job["recipe"]["pool"], live) for a in spec["args"]]
+        kw = {k: unjson(v) for k, v in spec["kw"].items()}
+    else:
+        with open(job["snap"], "rb") as fh:
+            s = pickle.load(fh)
+        fn = s["fn"]
+        args = [dec(a) for a in s["args"]]
+        kw = {k: dec(v) for k, v in s["kw"].items()}
+    res, c, dt = run_one(fn, args, kw)
     return dict(canon=c, dt=round(dt, 3))
 
 
+def fresh_server():
+    """`import xrspatial`, then fork one child per request line (`<in.json> <out.json>`): every child is an
+    interpreter in which the library has been imported and nothing has been called -- a fresh interpreter without
+    paying for the imports again.  Single-threaded (forking a threaded process is not safe); children are reaped
+    as they finish; a child announces its result by renaming `<out>.tmp` to `<out>`."""
+    import signal
+    import warnings
+    warnings.filterwarnings("ignore")
+    import dask  # noqa: F401
+    import xarray  # noqa: F401
+    import xrspatial  # noqa: F401
+    import xrspatial.experimental.polygonize  # noqa: F401
+    signal.signal(signal.SIGCHLD, signal.SIG_IGN)       # no zombies, no waitpid bookkeeping
+    sys.stdout.write("ready\n")
+    sys.stdout.flush()
+    for line in sys.stdin:
+        parts = line.split()
+        if len(parts) != 2:
+            continue
+        inp, outp = parts
+        pid = os.fork()
+        if pid == 0:
+            code = 0
+            try:
+                signal.signal(signal.SIGCHLD, signal.SIG_DFL)
+                job = json.load(open(inp))
+                res = worker_fresh(job)
+                with open(outp + ".tmp", "w") as fh:
+                    json.dump(res, fh, default=str)
+            except BaseException as ex:  # noqa: BLE001
+                import traceback
+                with open(outp + ".tmp", "w") as fh:
+                    json.dump(dict(crash=repr(ex), trace=traceback.format_exc()[-1500:]), fh)
+                code = 1
+            finally:
+                os.rename(outp + ".tmp", outp)
+                os._exit(code)
+
+
 def worker_main(argv):
+    if argv and argv[0] == "freshserver":
+        return fresh_server()
     mode, inp, outp = argv
     job = json.load(open(inp))
     import warnings
@@ -429,23 +570,84 @@ def worker_main(argv):
 # ================================================================================================
 #                                   check side
 # ================================================================================================
-def spawn(mode, job, threads, tmp, label, timeout=1500):
-    inp = os.path.join(tmp, f"{label}.in.json")
-    outp = os.path.join(tmp, f"{label}.out.json")
-    with open(inp, "w") as fh:
-        json.dump(job, fh)
+def worker_env(threads):
     env = dict(os.environ)
     env["NUMBA_NUM_THREADS"] = str(max(1, threads))
     env["OMP_NUM_THREADS"] = env["MKL_NUM_THREADS"] = env["OPENBLAS_NUM_THREADS"] = "1"
     env["PYTHONHASHSEED"] = env.get("PYTHONHASHSEED", "random")
     env["PYTHONPATH"] = os.pathsep.join([p for p in [os.environ.get("XRS_REPO"), HERE, env.get("PYTHONPATH")] if p])
     env.pop("NUMBA_CACHE_DIR", None)
-    p = subprocess.run([sys.executable, os.path.abspath(__file__), mode, inp, outp], env=env, stdout=subprocess.PIPE,
+    return env
+
+
+def spawn(mode, job, threads, tmp, label, timeout=1500):
+    inp = os.path.join(tmp, f"{label}.in.json")
+    outp = os.path.join(tmp, f"{label}.out.json")
+    with open(inp, "w") as fh:
+        json.dump(job, fh)
+    p = subprocess.run([sys.executable, os.path.abspath(__file__), mode, inp, outp], env=worker_env(threads), stdout=subprocess.PIPE,
                        stderr=subprocess.PIPE, text=True, timeout=timeout, cwd=tmp)
     if p.returncode != 0 or not os.path.exists(outp):
         from common import Infra
         raise Infra(f"worker {label} failed rc={p.returncode}: {p.stderr[-1500:]}")
     return json.load(open(outp))
+
+
+class ServerDown(Exception):
+    pass
+
+
+class FreshServer:
+    """one process that has imported the library and forks a pristine child per fresh call (see fresh_server)"""
+    def __init__(self, tmp):
+        import threading
+        self.tmp, self.lock, self.ok = tmp, threading.Lock(), None
+        self.err = open(os.path.join(tmp, "freshserver.err"), "w")
+        try:
+            self.p = subprocess.Popen([sys.executable, os.path.abspath(__file__), "freshserver"], env=worker_env(1), cwd=tmp,
+                                      stdin=subprocess.PIPE, stdout=subprocess.PIPE, stderr=self.err, text=True)
+        except OSError:
+            self.p, self.ok = None, False
+
+    def _ready(self):
+        if self.ok is None:
+            line = self.p.stdout.readline() if self.p else ""
+            self.ok = line.strip() == "ready"
+        return self.ok
+
+    def run(self, job, label, timeout=1500):
+        inp = os.path.join(self.tmp, f"{label}.in.json")
+        outp = os.path.join(self.tmp, f"{label}.out.json")
+        with open(inp, "w") as fh:
+            json.dump(job, fh)
+        with self.lock:
+            if not self._ready() or self.p.poll() is not None:
+                raise ServerDown()
+            try:
+                self.p.stdin.write(f"{inp} {outp}\n")
+                self.p.stdin.flush()
+            except (OSError, ValueError):
+                self.ok = False
+                raise ServerDown()
+        t0 = time.time()
+        while not os.path.exists(outp):
+            time.sleep(0.05)
+            if time.time() - t0 > timeout or (self.p.poll() is not None and not os.path.exists(outp)):
+                raise ServerDown()
+        res = json.load(open(outp))
+        if "crash" in res:
+            from common import Infra
+            raise Infra(f"fresh call {label} crashed: {res['crash']} {res.get('trace', '')[-800:]}")
+        return res
+
+    def close(self):
+        try:
+            if self.p:
+                self.p.stdin.close()
+                self.p.terminate()
+        except Exception:  # noqa: BLE001
+            pass
+        self.err.close()
 
 
 def facts():
@@ -455,9 +657,15 @@ def facts():
 
 
 # ---- generators of call specs ---------------------------------------------------------------------
+IN_PLACE_BY_CONTRACT = ("zonal.apply", "viewshed.viewshed")     # they change the raster they are given: never derive from it
+
+
 def g_raster(rng, kind, big=False, dtype=None, dask_ok=True, nan_ok=True, square=False):
-    h = rng.choice([5, 6, 8, 11] if not big else [24, 33, 40])
-    w = h if square else rng.choice([5, 7, 9, 12] if not big else [24, 31, 48])
+    if big == "huge":          # >= 250 000 cells: the size class where libraries switch algorithms / go parallel
+        h, w = rng.choice([(512, 512), (520, 504), (500, 512)])
+    else:
+        h = rng.choice([5, 6, 8, 11] if not big else [24, 33, 40])
+        w = h if square else rng.choice([5, 7, 9, 12] if not big else [24, 31, 48])
     g = dict(kind=kind, h=h, w=w, seed=rng.randrange(10 ** 6),
              dtype=dtype or rng.choice(["float64", "float32", "float64", "int32", "int64"]))
     if kind in ("zones",):
@@ -466,7 +674,9 @@ def g_raster(rng, kind, big=False, dtype=None, dask_ok=True, nan_ok=True, square
         g["nan"] = rng.randrange(1, 4)
     if rng.random() < 0.3:
         g["sx"], g["sy"] = rng.choice([(0.5, 0.5), (2.0, 1.0), (1.0, 3.0), (0.25, 0.5)])
-    if dask_ok and rng.random() < 0.35:
+    if rng.random() < 0.4:
+        g["nores"] = True          # no `res` attribute: the cell size is what the coordinates say
+    if dask_ok and big != "huge" and rng.random() < 0.35:
         ch = rng.choice([2, 3, 4] if not big else [8, 16])
         cw = rng.choice([3, 4, 5] if not big else [8, 16])
         g["chunks"] = [split(h, ch), split(w, cw)]
@@ -480,8 +690,39 @@ def split(n, c):
     return out
 
 
+def desc_of(pool, r):
+    """the raster description behind an argument (a derived raster: its own shape and spacing)"""
+    if "ref" in r:
+        return pool[r["ref"]]
+    if "gen" in r:
+        return r["gen"]
+    d = r["derive"]
+    g = dict(pool[d["of"]])
+    if d["op"] == "stride":
+        g["h"], g["w"] = -(-g["h"] // d["sy"]), -(-g["w"] // d["sx"])
+        g["sx"], g["sy"] = g.get("sx", 1.0) * d["sx"], g.get("sy", 1.0) * d["sy"]
+    elif d["op"] == "window":
+        g["h"], g["w"] = d["y1"] - d["y0"], d["x1"] - d["x0"]
+    elif d["op"] == "rescale":
+        g["sx"], g["sy"] = g.get("sx", 1.0) * d["k"], g.get("sy", 1.0) * d["k"]
+    return g
+
+
+def gen_derivation(rng, g):
+    """an attrs-preserving xarray operation on a raster the caller already holds"""
+    op = rng.choice(["stride", "stride", "rescale", "rescale", "window"])
+    if op == "stride" and g["h"] >= 6 and g["w"] >= 6:
+        sy, sx = rng.choice([(2, 2), (2, 1), (1, 2), (2, 2), (3, 2)])
+        if -(-g["h"] // sy) >= 3 and -(-g["w"] // sx) >= 3:
+            return dict(op="stride", sy=sy, sx=sx)
+    if op == "window" and g["h"] >= 5 and g["w"] >= 5:
+        return dict(op="window", y0=1, y1=g["h"] - 1, x0=0, x1=g["w"] - 1)
+    return dict(op="rescale", k=rng.choice([0.001, 1000.0, 0.5, 3.0, 0.3048]))
+
+
 def ras(rng, pool, kind, **kwargs):
-    """an argument: a shared object of the pool (a later call sees what earlier calls did to it) or a new one"""
+    """an argument: a shared object of the pool (a later call sees what earlier calls did to it), a raster derived
+    from a pool object the way callers derive rasters (overview, window, other units), or a new one"""
     def fits(g):
         if g["kind"] != kind:
             return False
@@ -493,34 +734,67 @@ def ras(rng, pool, kind, **kwargs):
             return False
         if named and not g.get("name"):
             return False
-        return bool(kwargs.get("big")) == (g["h"] >= 20)
+        return (kwargs.get("big") or False) == ("huge" if g["h"] >= 400 else g["h"] >= 20)
     named = kwargs.pop("named", False)
+    derivable = kwargs.pop("derivable", False)
     names = [k for k, g in pool.items() if fits(g)]
+    if derivable and rng.random() < 0.35:
+        cands = [k for k, g in pool.items() if g["kind"] == kind and not g.get("chunks") and not g.get("tainted")
+                 and g["h"] < 400 and g.get("used") and not (kwargs.get("nan_ok") is False and g.get("nan"))
+                 and not (kwargs.get("dtype") and g["dtype"] != kwargs["dtype"])]
+        if cands:
+            k = rng.choice(cands)
+            return {"derive": dict(gen_derivation(rng, pool[k]), of=k)}
     if names and rng.random() < 0.5:
-        return {"ref": rng.choice(names)}
+        k = rng.choice(names)
+        pool[k]["used"] = True
+        return {"ref": k}
     g = g_raster(rng, kind, **kwargs)
     if named:
         g["name"] = "terrain"
     if rng.random() < 0.6 and len(pool) < 6:
         nm = f"r{len(pool)}"
-        pool[nm] = g
+        pool[nm] = dict(g, used=True)
         return {"ref": nm}
     return {"gen": g}
 
 
+def taint(pool, r):
+    if "ref" in r:
+        pool[r["ref"]]["tainted"] = True
+
+
 def same_shape(rng, pool, first, kind, **kw):
-    g0 = pool[first["ref"]] if "ref" in first else first["gen"]
+    g0 = desc_of(pool, first)
     g = dict(g_raster(rng, kind, **kw), h=g0["h"], w=g0["w"])
     for k in ("sx", "sy"):
         if k in g0:
             g[k] = g0[k]
         else:
             g.pop(k, None)
-    if g0.get("chunks"):
+    if g0.get("chunks") and "derive" not in first:
         g["chunks"] = g0["chunks"]
     else:
         g.pop("chunks", None)
     return {"gen": g}
+
+
+TARGET_ARRAYS = [
+    {"__arr__": [3], "dtype": "int64"}, {"__arr__": [3, 0], "dtype": "int32"}, {"__arr__": [1, 2], "dtype": "int64"},
+    {"__arr__": [1, 0, 2, 0], "dtype": "int32"}, {"__arr__": [2.0], "dtype": "float64"}, {"__arr__": [2.0, 4.0], "dtype": "float32"},
+    {"__arr__": [4], "dtype": "uint8"}, {"__arr__": [1, 2, 3, 4], "dtype": "int16"}, {"__arr__": [0, 3], "dtype": "float64"},
+]
+
+
+def twin_array(rng, a):
+    """another array with the same byte image: other dtype, other length (what a cache keyed on `.tobytes()` confuses)"""
+    import numpy as np
+    arr = unjson(a)
+    nb = arr.nbytes
+    opts = [dt for dt in ("int64", "int32", "int16", "uint8", "float64", "float32") if dt != str(arr.dtype) and nb % np.dtype(dt).itemsize == 0]
+    if not opts or nb == 0:
+        return None
+    return {"__bytes_of__": a, "dtype": rng.choice(opts)}
 
 
 def c_proximity(rng, pool):
@@ -528,11 +802,13 @@ def c_proximity(rng, pool):
     kw = {}
     if rng.random() < 0.75:
         kw["target_values"] = rng.choice([[1], [2, 3], [1, 2, 3, 4], [4], [], [3.0]])
+        if rng.random() < 0.4:       # class ids as arrays: several dtypes and lengths, some pairs with equal bytes
+            kw["target_values"] = rng.choice(TARGET_ARRAYS)
     if rng.random() < 0.6:
         kw["max_distance"] = rng.choice(["inf", 2, 3.5, 10, 0.5, 1.0, 100.0])
     if rng.random() < 0.5:
         kw["distance_metric"] = rng.choice(["EUCLIDEAN", "MANHATTAN", "GREAT_CIRCLE"])
-    return dict(fn=fn, args=[ras(rng, pool, "targets")], kw=kw)
+    return dict(fn=fn, args=[ras(rng, pool, "targets", derivable=True)], kw=kw)
 
 
 def c_focal(rng, pool):
@@ -544,7 +820,7 @@ def c_focal(rng, pool):
         kw = {"passes": rng.choice([1, 1, 2, 3])}
         if rng.random() < 0.5:
             kw["excludes"] = rng.choice([["nan"], ["nan", 0.0], [1.0], ["nan", 2.5, 3.0]])
-        return dict(fn="focal.mean", args=[ras(rng, pool, "elev")], kw=kw)
+        return dict(fn="focal.mean", args=[ras(rng, pool, "elev", derivable=True)], kw=kw)
     if which == "apply":
         kw = {"kernel": {"__arr__": kern}}
         if rng.random() < 0.7:
@@ -557,7 +833,7 @@ def c_focal(rng, pool):
             kw["stats_funcs"] = rng.choice([["mean"], ["max", "min"], ["sum", "std", "var"], ["range", "mean"]])
         return dict(fn="focal.focal_stats", args=[ras(rng, pool, "elev")], kw=kw)
     if which == "hotspots":
-        return dict(fn="focal.hotspots", args=[ras(rng, pool, "elev")], kw={"kernel": {"__arr__": kern}})
+        return dict(fn="focal.hotspots", args=[ras(rng, pool, "elev", derivable=True)], kw={"kernel": {"__arr__": kern}})
     k2 = [[float(v) * rng.choice([1.0, 0.5, 0.25]) for v in row] for row in kern]
     return dict(fn="convolution.convolution_2d", args=[ras(rng, pool, "elev")], kw={"kernel": {"__arr__": k2}})
 
@@ -574,7 +850,7 @@ def c_zonal(rng, pool):
             if rng.random() < 0.6:
                 kw["stats_funcs"] = rng.choice([["mean"], ["max", "min", "count"], ["sum", "std", "var"], ["count"],
                                                 {"__statsdict__": ["zmax", "zrange"]}, {"__statsdict__": ["zsum"]}])
-                zg = pool[z["ref"]] if "ref" in z else z["gen"]
+                zg = desc_of(pool, z)
                 if isinstance(kw["stats_funcs"], dict) and zg.get("chunks"):
                     kw["stats_funcs"] = ["mean", "count"]
             if rng.random() < 0.3:
@@ -605,11 +881,11 @@ def c_zonal(rng, pool):
 
 def c_generators(rng, pool):
     if rng.random() < 0.5:
-        kw = {"seed": rng.choice([1, 5, 5, 7, 12345])}
+        kw = {"seed": rng.choice([0, 0, 1, 2, 5, 5, 7, 12345])}
         if rng.random() < 0.6:
             kw["freq"] = {"__tuple__": rng.choice([[1, 1], [2, 3], [5, 1], [0.5, 4]])}
         return dict(fn="perlin.perlin", args=[ras(rng, pool, "elev", dtype=rng.choice(["float64", "float32"]), nan_ok=False)], kw=kw)
-    kw = {"seed": rng.choice([1, 10, 10, 3, 99])}
+    kw = {"seed": rng.choice([0, 0, 1, 2, 10, 10, 3, 99])}
     if rng.random() < 0.5:
         kw["x_range"] = {"__tuple__": rng.choice([[0, 500], [-20, 20], [100, 300]])}
         kw["y_range"] = {"__tuple__": rng.choice([[0, 500], [-10, 30]])}
@@ -619,8 +895,8 @@ def c_generators(rng, pool):
 
 
 def c_classify(rng, pool):
-    which = rng.choice(["binary", "reclassify", "quantile", "natural_breaks", "equal_interval"])
-    r = ras(rng, pool, "elev")
+    which = rng.choice(["binary", "reclassify", "quantile", "natural_breaks", "natural_breaks", "equal_interval"])
+    r = ras(rng, pool, "elev", derivable=True)
     if which == "binary":
         return dict(fn="classify.binary", args=[r], kw={"values": rng.choice([[1, 2, 3], [0.25, 5.0], [7]])})
     if which == "reclassify":
@@ -628,15 +904,17 @@ def c_classify(rng, pool):
         return dict(fn="classify.reclassify", args=[r], kw={"bins": b, "new_values": [i * 10 for i in range(len(b))]})
     if which == "natural_breaks":
         kw = {"k": rng.choice([2, 3, 5])}
-        if rng.random() < 0.5:
-            kw["num_sample"] = rng.choice([10, 20, 50])
-        return dict(fn="classify.natural_breaks", args=[ras(rng, pool, "elev", dask_ok=False)], kw=kw)
+        a = ras(rng, pool, "elev", dask_ok=False)
+        if rng.random() < 0.7:       # mostly fewer samples than cells: the sampling branch
+            g = desc_of(pool, a)
+            kw["num_sample"] = rng.choice([10, 20, max(4, g["h"] * g["w"] // 2), g["h"] * g["w"] - 1, 50])
+        return dict(fn="classify.natural_breaks", args=[a], kw=kw)
     return dict(fn="classify." + which, args=[r], kw={"k": rng.choice([2, 3, 4, 6])})
 
 
 def c_surface(rng, pool):
-    which = rng.choice(["slope", "aspect", "curvature", "hillshade", "summarize"])
-    r = ras(rng, pool, "elev")
+    which = rng.choice(["slope", "aspect", "curvature", "hillshade", "summarize", "slope", "curvature"])
+    r = ras(rng, pool, "elev", derivable=True)
     if which == "hillshade":
         kw = {}
         if rng.random() < 0.6:
@@ -651,7 +929,11 @@ def c_surface(rng, pool):
 def c_spectral(rng, pool):
     a = ras(rng, pool, "band")
     b = same_shape(rng, pool, a, "band")
-    which = rng.choice(["ndvi", "savi", "evi", "true_color"])
+    which = rng.choice(["ndvi", "savi", "evi", "true_color", "two", "three"])
+    if which == "two":
+        return dict(fn="multispectral." + rng.choice(["gci", "nbr", "nbr2", "ndmi"]), args=[a, b], kw={})
+    if which == "three":
+        return dict(fn="multispectral." + rng.choice(["arvi", "sipi", "ebbi"]), args=[a, b, same_shape(rng, pool, a, "band")], kw={})
     if which == "ndvi":
         return dict(fn="multispectral.ndvi", args=[a, b], kw={})
     if which == "savi":
@@ -664,7 +946,7 @@ def c_spectral(rng, pool):
 
 def c_path(rng, pool):
     r = ras(rng, pool, "elev", dask_ok=False)
-    g = pool[r["ref"]] if "ref" in r else r["gen"]
+    g = desc_of(pool, r)
     sx, sy = g.get("sx", 1.0), g.get("sy", 1.0)
     pt = lambda: [rng.randrange(g["h"]) * sy, rng.randrange(g["w"]) * sx]  # noqa: E731
     kw = {"connectivity": rng.choice([4, 8])}
@@ -684,7 +966,8 @@ def c_polygonize(rng, pool):
 
 def c_viewshed(rng, pool):
     r = ras(rng, pool, "elev", dask_ok=False, nan_ok=False)
-    g = pool[r["ref"]] if "ref" in r else r["gen"]
+    taint(pool, r)
+    g = desc_of(pool, r)
     sx, sy = g.get("sx", 1.0), g.get("sy", 1.0)
     kw = {"x": rng.randrange(g["w"]) * sx, "y": rng.randrange(g["h"]) * sy, "observer_elev": rng.choice([0, 1, 5.5, 20])}
     if rng.random() < 0.4:
@@ -695,12 +978,42 @@ def c_viewshed(rng, pool):
 def c_local(rng, pool):
     h, w = rng.choice([3, 5]), rng.choice([4, 6])
     ds = {k: dict(kind="cats", h=h, w=w, seed=rng.randrange(10 ** 6), dtype="float64") for k in ("a", "b", "c")}
-    which = rng.choice(["cell_stats", "combine", "popularity", "equal_frequency"])
+    which = rng.choice(["cell_stats", "combine", "popularity", "equal_frequency", "lesser_frequency", "greater_frequency", "rank",
+                        "lowest_position", "highest_position"])
+    if which in ("lowest_position", "highest_position"):
+        return dict(fn="local." + which, args=[{"dataset": ds}], kw={})
     if which == "cell_stats":
         return dict(fn="local.cell_stats", args=[{"dataset": ds}], kw={"func": rng.choice(["sum", "max", "mean", "median", "std", "min"])})
     if which == "combine":
         return dict(fn="local.combine", args=[{"dataset": ds}], kw={})
     return dict(fn="local." + which, args=[{"dataset": ds}, "a"], kw={})
+
+
+RADII = [1, 2, 3, 2.5, 4, "2", "3m", "0.002km", "6.5ft", 1.5]
+
+
+def c_kernels(rng, pool):
+    """the kernel builders and the helpers around them (cheap calls that hand out arrays)"""
+    which = rng.choice(["circle", "circle", "annulus", "annulus", "custom", "cellsize", "resolution", "metric"])
+    cx, cy = rng.choice([(1, 1), (1, 1), (2, 1), (0.5, 0.5), (1, 2), (10, 10)])
+    if which == "circle":
+        return dict(fn="convolution.circle_kernel", args=[cx, cy, rng.choice(RADII)], kw={})
+    if which == "annulus":
+        ro = rng.choice([2, 3, 4, 3, "3m", 2.5])
+        return dict(fn="convolution.annulus_kernel", args=[cx, cy, ro, rng.choice([1, 1, "1m", 0.5 * min(cx, cy) + 0.5])], kw={})
+    if which == "custom":
+        k = rng.choice([[[1, 0, 1], [0, 1, 0], [1, 0, 1]], [[1, 1, 1]], [[0.5, 1, 0.5], [1, 2, 1], [0.5, 1, 0.5]]])
+        return dict(fn="convolution.custom_kernel", args=[{"__arr__": k}], kw={})
+    if which == "cellsize":
+        return dict(fn="convolution.calc_cellsize", args=[ras(rng, pool, "elev", derivable=True)], kw={})
+    if which == "resolution":
+        return dict(fn="utils." + rng.choice(["get_dataarray_resolution", "calc_res"]), args=[ras(rng, pool, "elev", derivable=True)], kw={})
+    m = rng.choice(["euclidean_distance", "manhattan_distance", "great_circle_distance"])
+    return dict(fn="proximity." + m, args=[rng.choice([0.0, 1.5, -20.0]), rng.choice([3.0, 10.0]), rng.choice([0.0, 45.0]), rng.choice([1.0, -30.0])], kw={})
+
+
+def c_scribble_all(rng, pool):
+    return dict(fn="user.scribble_all", args=[], kw={}, perturber=True)
 
 
 def c_bump(rng, pool):
@@ -716,9 +1029,21 @@ def c_user(rng, pool):
 FAMILIES = {
     "proximity": (c_proximity, 3.0), "focal": (c_focal, 3.0), "zonal": (c_zonal, 3.0), "generators": (c_generators, 3.0),
     "classify": (c_classify, 1.5), "surface": (c_surface, 1.0), "spectral": (c_spectral, 1.0), "path": (c_path, 1.0),
-    "polygonize": (c_polygonize, 1.5), "local": (c_local, 0.7), "viewshed": (c_viewshed, 0.25),
+    "polygonize": (c_polygonize, 1.5), "local": (c_local, 0.7), "viewshed": (c_viewshed, 0.25), "kernels": (c_kernels, 2.0),
 }
-PERTURBERS = {"bump": (c_bump, 1.0), "user": (c_user, 1.0)}
+PERTURBERS = {"bump": (c_bump, 1.0), "user": (c_user, 1.0), "scribble": (c_scribble_all, 1.0)}
+PERTURBER_FNS = ("user.np_random", "user.scribble_all")
+_SIB_GROUPS = [["convolution.circle_kernel", "convolution.annulus_kernel"], ["proximity.proximity", "proximity.allocation", "proximity.direction"],
+               ["perlin.perlin", "terrain.generate_terrain"], ["slope.slope", "aspect.aspect", "curvature.curvature", "hillshade.hillshade"],
+               ["focal.apply", "focal.focal_stats", "focal.hotspots", "convolution.convolution_2d"],
+               ["classify.quantile", "classify.natural_breaks", "classify.equal_interval"],
+               ["multispectral.ndvi", "multispectral.gci", "multispectral.nbr", "multispectral.ndmi"],
+               ["utils.get_dataarray_resolution", "utils.calc_res", "convolution.calc_cellsize"]]
+SIBLINGS = {f: [x for x in grp if x != f] for grp in _SIB_GROUPS for f in grp}
+FN_FAMILY = {"convolution.circle_kernel": "kernels", "convolution.annulus_kernel": "kernels", "convolution.custom_kernel": "kernels",
+             "convolution.calc_cellsize": "kernels", "utils.get_dataarray_resolution": "kernels", "utils.calc_res": "kernels",
+             "proximity.euclidean_distance": "kernels", "proximity.manhattan_distance": "kernels",
+             "proximity.great_circle_distance": "kernels"}
 
 FAMILY_OF_MODULE = {"proximity": "proximity", "focal": "focal", "convolution": "focal", "zonal": "zonal", "perlin": "generators",
                     "terrain": "generators", "classify": "classify", "slope": "surface", "aspect": "surface",
@@ -738,6 +1063,8 @@ def wchoice(rng, table):
 
 
 def family_of(fn):
+    if fn in FN_FAMILY:
+        return FN_FAMILY[fn]
     for k in sorted(FAMILY_OF_MODULE, key=len, reverse=True):
         if fn.startswith(k + "."):
             return FAMILY_OF_MODULE[k]
@@ -772,6 +1099,208 @@ def gen_call_of(rng, pool, fn, tries=80):
             pool.update(p2)
             return spec
     return None
+
+
+def is_raster_arg(a):
+    return isinstance(a, dict) and ("ref" in a or "gen" in a or "derive" in a)
+
+
+def twins_of(a, limit=3):
+    """arrays with the same byte image as `a` in other dtypes (and therefore other lengths / values)"""
+    import numpy as np
+    arr = unjson(a)
+    nb = arr.nbytes
+    out = []
+    for dt in ("int32", "int64", "float32", "int16", "uint8", "float64"):
+        if dt != str(arr.dtype) and nb and nb % np.dtype(dt).itemsize == 0:
+            out.append({"__bytes_of__": a, "dtype": dt})
+    return out[:limit]
+
+
+def equal_key_variants(v, strings=True):
+    """values a dictionary / lru_cache key (or a key built from `.tobytes()`, `str()`, `float()`) cannot tell from `v`
+    although the call is another one: 1 / 1.0 / True hash alike, an array with the same bytes in another dtype and
+    length, a list and the array of its elements, a distance string for the same number"""
+    if isinstance(v, dict) and "__arr__" in v:
+        return twins_of(v)
+    if isinstance(v, bool):
+        return [int(v)]
+    if isinstance(v, int):
+        return [float(v)] + ([str(v)] if strings and v not in (0, 1) else []) + ([bool(v)] if v in (0, 1) else [])
+    if isinstance(v, float) and v == int(v):
+        return [int(v)]
+    if isinstance(v, list) and v and all(isinstance(x, (int, float)) and not isinstance(x, bool) for x in v):
+        ints = all(float(x) == int(x) for x in v)
+        arr = {"__arr__": v, "dtype": "int64" if ints else "float64"}
+        return [arr, [float(x) for x in v]] + twins_of(arr, 2)
+    return []
+
+
+def equal_key_variant(rng, v, strings=True):
+    vs = equal_key_variants(v, strings)
+    return rng.choice(vs) if vs else None
+
+
+def equal_key_calls(spec, limit=8):
+    """the call with each argument in turn replaced by each of its equal-key variants"""
+    out = []
+    base = {k: v for k, v in spec.items() if k not in ("scribble", "repeat")}
+    slots = [("kw", k) for k in base["kw"]] + [("args", i) for i, a in enumerate(base["args"]) if not is_raster_arg(a) and not
+             (isinstance(a, dict) and "dataset" in a)]
+    for where, k in slots:
+        for v in equal_key_variants(base[where][k], strings=(where == "args")):
+            new = copy.deepcopy(base)
+            new[where][k] = v
+            new["related"] = "equal-key"
+            out.append(new)
+    return out[:limit]
+
+
+def related_call(rng, pool, spec, fn2=None):
+    """a call *related* to an earlier one: the same function with one argument replaced by a value that a cache key
+    would confuse with the old one (or freshly drawn), or a sibling function given the same leading arguments
+    (circle_kernel after annulus_kernel with the same cell sizes and radius).  None when nothing applies."""
+    if fn2 is None or fn2 == spec["fn"]:
+        new = copy.deepcopy({k: v for k, v in spec.items() if k not in ("scribble", "repeat")})
+        slots = [("kw", k) for k in new["kw"]] + [("args", i) for i, a in enumerate(new["args"]) if not is_raster_arg(a) and not
+                 (isinstance(a, dict) and "dataset" in a)]
+        rng.shuffle(slots)
+        for where, k in slots:
+            v = equal_key_variant(rng, new[where][k], strings=(where == "args"))
+            if v is not None:
+                new[where][k] = v
+                new["related"] = "equal-key"
+                return new
+        other = gen_call_of(rng, pool, spec["fn"])
+        if other is None:
+            return None
+        for where, k in slots[:1]:      # everything as before but one argument
+            if where == "kw" and k in other["kw"]:
+                new["kw"][k] = other["kw"][k]
+            elif where == "args" and k < len(other["args"]):
+                new["args"][k] = other["args"][k]
+        new["related"] = "one-argument"
+        return new
+    other = gen_call_of(rng, pool, fn2)
+    if other is None:
+        return None
+    for i, a in enumerate(other["args"]):       # the same leading arguments, as far as they are of the same sort
+        if i < len(spec["args"]):
+            b = spec["args"][i]
+            if is_raster_arg(a) == is_raster_arg(b) and isinstance(a, dict) == isinstance(b, dict):
+                other["args"][i] = copy.deepcopy(b)
+    for k in other["kw"]:
+        if k in spec["kw"]:
+            other["kw"][k] = copy.deepcopy(spec["kw"][k])
+    other["related"] = "sibling"
+    return other
+
+
+def derive_from(rng, pool, spec, fn2):
+    """a call of fn2 on a raster *derived* from the raster an earlier call was given (shared numpy raster only)"""
+    base = next((a for a in spec["args"] if isinstance(a, dict) and "ref" in a), None)
+    if base is None or pool[base["ref"]].get("chunks") or pool[base["ref"]].get("tainted"):
+        return None
+    other = gen_call_of(rng, pool, fn2)
+    if other is None:
+        return None
+    for i, a in enumerate(other["args"]):
+        if is_raster_arg(a):
+            other["args"][i] = {"derive": dict(gen_derivation(rng, pool[base["ref"]]), of=base["ref"])}
+            other["related"] = "derived"
+            return other
+    return None
+
+
+def enlarge(spec, rng, pool):
+    """the same call on rasters of >= 250 000 cells (numpy backed, one common shape)"""
+    new = copy.deepcopy(spec)
+    shape = rng.choice([(512, 512), (520, 504), (500, 512)])
+    for i, a in enumerate(new["args"]):
+        if is_raster_arg(a):
+            if "derive" in a:
+                return None
+            g = {k: v for k, v in (a["gen"] if "gen" in a else pool[a["ref"]]).items() if k not in ("used", "tainted")}
+            g.update(h=shape[0], w=shape[1])
+            g.pop("chunks", None)
+            new["args"][i] = {"gen": g}
+    return new
+
+
+def gen_big_history(rng, fns=None, n_calls=2):
+    """the size class of >= 250 000 cells: a few calls, the first repeated; run under 1 and many threads"""
+    fns = fns or ["focal.apply", "focal.focal_stats", "convolution.convolution_2d", "slope.slope", "focal.mean", "curvature.curvature",
+                  "aspect.aspect", "hillshade.hillshade", "classify.natural_breaks", "multispectral.ndvi", "focal.hotspots"]
+    hist, pool = [], {}
+    order = list(fns)
+    rng.shuffle(order)
+    for fn in order:
+        if len(hist) >= n_calls:
+            break
+        for _ in range(5):
+            tmp = {}
+            spec = gen_call_of(rng, tmp, fn)
+            spec = spec and enlarge(spec, rng, tmp)
+            if spec is not None and any(is_raster_arg(a) for a in spec["args"]):
+                spec["size"] = "huge"
+                hist.append(spec)
+                break
+    if not hist:
+        return None
+    rep = copy.deepcopy(hist[0])
+    rep["repeat"] = True
+    hist.append(rep)
+    return dict(history=hist, pool=pool)
+
+
+def gen_cell_history(rng, cell, writers, readers, n_rounds=3):
+    """targeted history for one shared cell that stopped being harmless: call a writer, then the readers -- the same
+    call again, a call a cache key would confuse with it, a sibling with the same leading arguments, a call on a
+    raster derived from the writer's raster (caller-owned cells), the caller scribbling over what it was handed --
+    and the writer again"""
+    pool, hist = {}, []
+    for _ in range(n_rounds):
+        w = rng.choice(writers)
+        c1 = None
+        for _ in range(6):
+            c1 = gen_call_of(rng, pool, w)
+            if c1 is None:
+                break
+            if not cell.startswith("param:") or any(isinstance(a, dict) and "ref" in a and not pool[a["ref"]].get("chunks")
+                                                    for a in c1["args"]):
+                break
+        if c1 is None:
+            continue
+        if cell.startswith("param:"):
+            for a in c1["args"]:
+                if isinstance(a, dict) and "ref" in a:
+                    pool[a["ref"]]["nores"] = True      # the library, not the caller, decides what ends up on this object
+        if rng.random() < 0.5:
+            c1["scribble"] = True
+        hist.append(c1)
+        followers = []
+        for rd in rng.sample(readers, k=min(len(readers), 2)) + [w]:
+            followers.append(related_call(rng, pool, c1, rd))
+            if cell.startswith("param:"):
+                followers.append(derive_from(rng, pool, c1, rd))
+        followers.append(related_call(rng, pool, c1))
+        followers = [f for f in followers if f is not None]
+        rng.shuffle(followers)
+        followers = followers[:4] + equal_key_calls(c1)       # ... and every argument in turn by each of its equal-key variants
+        for f in followers:
+            if rng.random() < 0.4:
+                f["scribble"] = True
+            hist.append(f)
+        if rng.random() < 0.5:
+            hist.append(c_scribble_all(rng, pool))
+        again = copy.deepcopy({k: v for k, v in c1.items() if k != "scribble"})
+        again["repeat"] = True
+        hist.append(again)
+        if followers:
+            again2 = copy.deepcopy({k: v for k, v in followers[0].items() if k != "scribble"})
+            again2["repeat"] = True
+            hist.append(again2)
+    return dict(history=hist, pool=pool) if hist else None
 
 
 def gen_targeted_history(rng, n, fn):
@@ -820,9 +1349,19 @@ def gen_history(rng, max_len, focus=None, allow_viewshed=True, must=None):
         if u < 0.22:
             _, f = wchoice(rng, PERTURBERS)
             spec = f(rng, pool)
+            if spec["fn"] == "user.scribble_all" and not hist:
+                continue
         elif u < 0.34 and any(not h.get("perturber") for h in hist):
             spec = copy.deepcopy(rng.choice([h for h in hist if not h.get("perturber")]))   # repeat a call verbatim
+            spec.pop("scribble", None)
             spec["repeat"] = True
+        elif u < 0.46 and any(not h.get("perturber") for h in hist):
+            # a call related to an earlier one: one argument a cache key would confuse / a sibling with the same arguments
+            old = rng.choice([h for h in hist if not h.get("perturber")])
+            sibs = [f for f in SIBLINGS.get(old["fn"], []) if family_of(f) in fams]
+            spec = related_call(rng, pool, old, rng.choice(sibs) if sibs and rng.random() < 0.5 else None)
+            if spec is None:
+                continue
         else:
             _, f = wchoice(rng, table)
             spec = f(rng, pool)
@@ -856,6 +1395,7 @@ class Lab:
         self.tmp = tempfile.mkdtemp(prefix="c11-")
         self.ex = ThreadPoolExecutor(max_workers=MAX_PROCS)      # one slot per worker subprocess
         self.orch = ThreadPoolExecutor(max_workers=48)           # threads that only wait for subprocesses
+        self.server = FreshServer(self.tmp) if os.environ.get("VERIF_C11_FORK", "1") == "1" else None
         self.fresh_cache = {}
         self.reported = set()
         self.n = 0
@@ -865,16 +1405,39 @@ class Lab:
                    write_snaps=write_snaps)
         return self.ex.submit(spawn, "session", job, threads, self.tmp, f"s-{tag}-t{threads}")
 
-    def fresh(self, snap):
-        key = h_bytes(open(snap, "rb").read())
+    def _fresh_job(self, job, label):
+        if self.server is not None:
+            try:
+                return self.server.run(job, label)
+            except ServerDown:
+                self.r.notes.append("fresh server unavailable: falling back to one interpreter per fresh call")
+                self.server = None
+        return spawn("fresh", job, 1, self.tmp, label)
+
+    def _fresh(self, key, job):
         if key not in self.fresh_cache:
             self.n += 1
-            self.fresh_cache[key] = self.ex.submit(spawn, "fresh", dict(snap=snap), 1, self.tmp, f"f-{self.n}")
+            self.fresh_cache[key] = self.ex.submit(self._fresh_job, job, f"f-{self.n}")
         return self.fresh_cache[key]
+
+    def fresh(self, snap):
+        return self._fresh(h_bytes(open(snap, "rb").read()), dict(snap=snap))
+
+    def fresh_recipe(self, spec, pool):
+        """the same call in a fresh interpreter on arguments re-made from scratch (rasters built anew, derived anew)"""
+        names = [a["derive"]["of"] if "derive" in a else a["ref"] for a in spec["args"] if isinstance(a, dict) and ("derive" in a or "ref" in a)]
+        rec = dict(spec=dict(fn=spec["fn"], args=spec["args"], kw=spec["kw"]), pool={k: pool[k] for k in names})
+        return self._fresh("recipe:" + h_bytes(json.dumps(rec, sort_keys=True, default=str).encode()), dict(recipe=rec))
+
+    def fresh_of(self, h, rec):
+        spec = h["history"][rec["i"]]
+        return self.fresh_recipe(spec, h["pool"]) if has_derived(spec) else self.fresh(rec["snap"])
 
     def close(self):
         self.orch.shutdown(wait=False, cancel_futures=True)
         self.ex.shutdown(wait=False, cancel_futures=True)
+        if self.server is not None:
+            self.server.close()
         import shutil
         shutil.rmtree(self.tmp, ignore_errors=True)
 
@@ -892,7 +1455,7 @@ def model_footprints(fns):
 
 def seed_of(spec):
     s = spec["kw"].get("seed")
-    return s if isinstance(s, int) else 0
+    return int(s) if isinstance(s, int) and s >= 0 else 0      # (an equal-key variant may have made it True / 5.0 / "5")
 
 
 DASK_KEY = re.compile(r"^[A-Za-z_][\w.]*-[0-9a-f]{32}$")
@@ -930,21 +1493,39 @@ def classify_diff(got, fr):
     return ("history", d)
 
 
+class Reused:
+    """the first call of a 1-thread session IS that call in a fresh interpreter: no second process for it"""
+    def __init__(self, rec):
+        self.rec = rec
+
+    def result(self):
+        return self.rec
+
+
+def call_key(h, rec):
+    """identity of a call for 'a repeated call repeats its result': its argument snapshot, or its recipe"""
+    spec = h["history"][rec["i"]]
+    if has_derived(spec):
+        return "recipe:" + h_bytes(json.dumps([spec["fn"], spec["args"], spec["kw"]], sort_keys=True, default=str).encode())
+    return h_bytes(open(rec["snap"], "rb").read())
+
+
 def check_history(lab, h, tag, configs, stream="history"):
     """run one history under every thread config + fresh runs; returns list of failure dicts"""
     r = lab.r
-    sess = {t: lab.session(h, t, f"{tag}", write_snaps=(t == configs[0])) for t in configs[:1]}
+    sess = {t: lab.session(h, t, f"{tag}", write_snaps=(t == configs[0])) for t in configs}
     first = sess[configs[0]].result()
-    for t in configs[1:]:
-        sess[t] = lab.session(h, t, f"{tag}", write_snaps=False)
     fresh = {}
     for rec in first:
         if not rec.get("perturber") and h["history"][rec["i"]].get("perturber") is not True:
-            fresh[rec["i"]] = lab.fresh(rec["snap"])
+            if rec["i"] == 0 and configs[0] == 1 and len(configs) > 1:
+                fresh[0] = Reused(rec)
+            else:
+                fresh[rec["i"]] = lab.fresh_of(h, rec)
     results = {t: (first if t == configs[0] else sess[t].result()) for t in configs}
     fails = []
     subj = [rec for rec in first if rec["i"] in fresh]
-    model = model_footprints({rec["fn"] for rec in first if rec["fn"] != "user.np_random"})
+    model = model_footprints({rec["fn"] for rec in first if rec["fn"] not in PERTURBER_FNS})
     # ---- property oracle: every call, every thread count, against the fresh process
     for rec in subj:
         i = rec["i"]
@@ -953,24 +1534,29 @@ def check_history(lab, h, tag, configs, stream="history"):
         for t in configs:
             got = results[t][i]["canon"]
             key = dict(fn=rec["fn"], kw=spec["kw"], args=spec["args"], i=i, tag=tag)
+            g0 = spec["args"][0] if spec["args"] and isinstance(spec["args"][0], dict) else {}
             r.case(key, desc=dict(fn=rec["fn"], kw=spec["kw"], pos=i, threads=t) if i == 1 and t == configs[0] else None,
-                   nontrivial=(i > 0), tags=[f"fn:{rec['fn']}", f"threads:{t}", "status:" + ("ok" if "ok" in fr else fr.get("err", "?")),
-                                             "pos:" + ("0" if i == 0 else "1-5" if i < 6 else "6-20" if i < 21 else "21+")])
+                   nontrivial=(i > 0 or t != configs[0]),
+                   tags=[f"fn:{rec['fn']}", f"threads:{t}", "status:" + ("ok" if "ok" in fr else fr.get("err", "?")),
+                         "pos:" + ("0" if i == 0 else "1-5" if i < 6 else "6-20" if i < 21 else "21+"),
+                         "arg:" + ("derived:" + g0["derive"]["op"] if "derive" in g0 else "shared" if "ref" in g0 else "own")])
             d = classify_diff(got, fr)
             if d:
                 fails.append(dict(kind=d[0], fn=rec["fn"], i=i, threads=t, what=d[1]))
-    # ---- a repeated call repeats its result (when its argument snapshot is the same)
-    seen = {}
-    for rec in subj:
-        k = h_bytes(open(rec["snap"], "rb").read())
-        if k in seen:
-            r.tag("repeated-calls")
-            d = classify_diff(results[configs[0]][seen[k]]["canon"], rec["canon"])
-            if d:
-                fails.append(dict(kind="repeat" if d[0] == "history" else "dask-key-name", fn=rec["fn"], i=rec["i"], threads=configs[0],
-                                  repeat_of=seen[k], what=f"call {seen[k]} repeated at {rec['i']}: {d[1]}"))
-        else:
-            seen[k] = rec["i"]
+    # ---- a repeated call repeats its result (same argument snapshot / same recipe), under every thread count
+    for t in configs:
+        seen = {}
+        for rec in subj:
+            k = call_key(h, rec)
+            if k in seen:
+                if t == configs[0]:
+                    r.tag("repeated-calls")
+                d = classify_diff(results[t][seen[k]]["canon"], results[t][rec["i"]]["canon"])
+                if d:
+                    fails.append(dict(kind="repeat" if d[0] == "history" else "dask-key-name", fn=rec["fn"], i=rec["i"], threads=t,
+                                      repeat_of=seen[k], what=f"call {seen[k]} repeated at {rec['i']}: {d[1]}"))
+            else:
+                seen[k] = rec["i"]
     # ---- model vs code: the cells that really changed are cells the summary writes
     for rec in first:
         if rec.get("perturber"):
@@ -980,6 +1566,9 @@ def check_history(lab, h, tag, configs, stream="history"):
             r.disagree("footprint", dict(fn=rec["fn"]), "function ran", "no generated summary of that name")
             continue
         writes = set() if m["writes"] == "-" else set(m["writes"].split(","))
+        for c in writes:
+            if c.startswith("param:"):
+                r.tag("model-writes:" + c)
         real = {c for c in rec["dirty"] if not c.startswith("mod:")}
         real |= {"glob:" + c[4:] for c in rec["dirty"] if c.startswith("mod:")}
         for c in sorted(real):
@@ -991,8 +1580,8 @@ def check_history(lab, h, tag, configs, stream="history"):
             fails.append(dict(kind="footprint", fn=rec["fn"], i=rec["i"], threads=configs[0],
                               what=f"shared state {sorted(extra)} changed but the summary says it writes {sorted(writes)}", soft=True))
     # ---- model verdict vs observation
-    calls = [f"{s['fn']}@{seed_of(s)}" for s in h["history"] if s["fn"] != "user.np_random"]
-    idx = [i for i, s in enumerate(h["history"]) if s["fn"] != "user.np_random"]
+    calls = [f"{s['fn']}@{seed_of(s)}" for s in h["history"] if s["fn"] not in PERTURBER_FNS]
+    idx = [i for i, s in enumerate(h["history"]) if s["fn"] not in PERTURBER_FNS]
     if calls:
         from common import Driver
         rep = Driver().ask(["effhist calls=" + ",".join(calls)])[0]
@@ -1039,15 +1628,15 @@ def still_fails(lab, case, tag):
     rec = lab.session(h, t, tag).result()
     last = rec[-1]
     want = "dask-key-name" if case["kind"] == "dask-key-name" else "history"
-    k = h_bytes(open(last["snap"], "rb").read())
+    k = call_key(h, last)
     for e in rec[:-1]:      # an identical earlier call must have given the identical result
-        if not e.get("perturber") and e["fn"] == last["fn"] and h_bytes(open(e["snap"], "rb").read()) == k:
+        if not e.get("perturber") and e["fn"] == last["fn"] and call_key(h, e) == k:
             d = classify_diff(e["canon"], last["canon"])
             if d and d[0] == want:
                 return True
     if case["kind"] == "repeat":
         return False
-    d = classify_diff(last["canon"], lab.fresh(last["snap"]).result()["canon"])
+    d = classify_diff(last["canon"], lab.fresh_of(h, last).result()["canon"])
     return bool(d) and d[0] == want
 
 
@@ -1081,10 +1670,10 @@ def generator_oracle(r, n):
     for k in range(n):
         h, w = rng.choice([4, 6, 9]), rng.choice([5, 8])
         dtype = rng.choice(["float64", "float32"])
-        seed = rng.choice([1, 5, 10, 77])
-        which = rng.choice(["perlin", "terrain"])
+        seed = rng.choice([0, 1, 2, 5, 10, 77]) if k >= 2 else 0
+        which = rng.choice(["perlin", "terrain"]) if k >= 2 else ["perlin", "terrain"][k]
         backend = rng.choice(["numpy", "numpy", "dask"])
-        kinds = ["zeros", "random", "nan", "inf"]
+        kinds = ["zeros", "zeros-again", "random", "nan", "inf"]
         outs = {}
         for kind in kinds:
             rs = np.random.RandomState(k)
@@ -1104,8 +1693,13 @@ def generator_oracle(r, n):
                 o = generate_terrain(t, seed=seed, x_range=(0, 100), y_range=(0, 50))
             outs[kind] = np.asarray(o.data)
         case = dict(kind="generator", fn=which, h=h, w=w, dtype=dtype, seed=seed, backend=backend, case=k)
-        r.case(case, desc=case if k == 0 else None, nontrivial=True, tags=[f"gen:{which}", f"gen-backend:{backend}"])
-        for kind in kinds[1:]:
+        r.case(case, desc=case if k == 0 else None, nontrivial=True, tags=[f"gen:{which}", f"gen-backend:{backend}", f"gen-seed:{seed}"])
+        if outs["zeros-again"].tobytes() != outs["zeros"].tobytes():
+            r.fail(f"generator:{which}:global-rng",
+                   f"{which}(seed={seed}) on the same {h}x{w} {dtype} {backend} zeros template gives different noise when the global "
+                   f"numpy generator is in another state: not a function of (seed, shape, extent)", dict(case, template="zeros-again"))
+            continue
+        for kind in kinds[2:]:
             if outs[kind].tobytes() != outs["zeros"].tobytes():
                 r.fail(f"generator:{which}:template-values",
                        f"{which}(seed={seed}) on a {h}x{w} {dtype} {backend} template holding {kind} differs from the same call on a "
@@ -1120,7 +1714,8 @@ def replay_generator(c):
     import dask.array as da
     from xrspatial import generate_terrain, perlin
     outs = {}
-    for kind in ("zeros", c.get("template", "nan")):
+    for n_, kind in enumerate(("zeros", c.get("template", "nan"))):
+        np.random.seed(1000 + n_)
         rs = np.random.RandomState(c.get("case", 0))
         a = np.zeros((c["h"], c["w"]), dtype=c["dtype"])
         if kind == "random":
@@ -1140,43 +1735,68 @@ def replay_generator(c):
 
 # ---- entry points -------------------------------------------------------------------------------------------
 def suspects(lab):
-    """functions whose generated facts no longer satisfy the theorems: where the search should look"""
+    """what the broken obligations point at: public functions whose summary is no longer noStale / confined, kernels
+    that became parallel / cached (and the public functions that reach them), and per shared cell that is written
+    by somebody and exposed to somebody: its writers and readers"""
     rep = lab.rep
     pub = [f for f in rep["public"] if f in rep["functions"]]
     m = model_footprints(pub)
     bad = [f for f, d in m.items() if d and (d["nostale"] == "0" or d["confined"] == "0") and f != "bump.bump"]
     par = [k for k, v in rep["kernels"].items() if v["parallel"] or v["cache"]]
+    reach = [f for f in pub if any(k in par for k in rep["functions"][f].get("kernels", []))]
+    cells = {}
+    for f, d in m.items():
+        if not d or f == "bump.bump":
+            continue
+        for c in (d["writes"].split(",") if d["writes"] != "-" else []):
+            cells.setdefault(c, dict(writers=[], readers=[]))["writers"].append(f)
+        for c in (d["exposed"].split(",") if d["exposed"] != "-" else []):
+            cells.setdefault(c, dict(writers=[], readers=[]))["readers"].append(f)
+    for c in list(cells):
+        v = cells[c]
+        gen = lambda fs: [f for f in fs if family_of(f) in FAMILIES]  # noqa: E731
+        v["writers"], v["readers"] = gen(v["writers"]), gen(v["readers"])
+        if not v["writers"] or not v["readers"] or c == "param:binding":
+            del cells[c]
     fams = []
-    for f in bad + par:
-        mod = f.rsplit(".", 1)[0]
-        mod = mod.split("._")[0] if mod not in FAMILY_OF_MODULE else mod
-        for k in sorted(FAMILY_OF_MODULE, key=len, reverse=True):
-            if f.startswith(k + "."):
-                fams.append(FAMILY_OF_MODULE[k])
-                break
-    return bad, par, list(dict.fromkeys(fams))
+    for f in bad + reach:
+        fam = family_of(f)
+        if fam and fam not in fams:
+            fams.append(fam)
+    return dict(bad=bad, par=par, reach=reach, cells=cells, fams=fams)
 
 
-def run(r, budget=None, focus=None, histories=None):
+def run(r, budget=None, focus=None, histories=None, configs_of=None):
     lab = Lab(r)
     try:
         tier = r.tier
-        n_hist, max_len, configs = {"quick": (3, 12, THREAD_CONFIGS), "thorough": (8, 60, THREAD_CONFIGS)}[tier]
+        n_hist, max_len, configs = {"quick": (4, 12, THREAD_CONFIGS), "thorough": (8, 60, THREAD_CONFIGS)}[tier]
         if budget:
             n_hist, max_len = budget
 
         def configs_for(k):
             """every run covers 1, 2, 4 and 16 threads; later histories alternate the middle ones (a session costs a full JIT)"""
+            if configs_of is not None:
+                return configs_of(k)
             if k == 0 or (tier == "thorough" and k < 3):
                 return list(THREAD_CONFIGS)
             return [1, 16] + ([2] if k % 2 else [4]) * (tier == "thorough")
         r.rule = ("history = random sequence of public calls (families proximity/focal/zonal/generators/classify/surface/spectral/"
-                  "path/polygonize/local/viewshed; 22% perturbers bump / user np.random; 12% verbatim repeats; 30% caller scribbles "
-                  "over results and lists; rasters 5..12 cells wide (24..48 for some focal), float/int dtypes, NaN cells, numpy or dask "
-                  "chunked, shared objects reused between calls); every non-perturber call of the session under each of "
-                  f"{configs} threads is compared bit-for-bit with the same call on its argument snapshot in a fresh process; "
-                  "non-trivial = a call at position >= 1 of its history")
-        r.trusted.append("harness/facts_effects.py (Python ast -> Gen/Effects.lean); subprocess isolation of the 'fresh' runs")
+                  "path/polygonize/local/viewshed/kernels(circle, annulus, custom kernels, calc_cellsize, resolution helpers, scalar "
+                  "metrics); 22% perturbers bump / user np.random / caller scribbling over EVERY array handed out so far; 12% verbatim "
+                  "repeats; 12% calls related to an earlier one (one argument replaced by an equal-key value: 1 / 1.0 / True, an array "
+                  "with the same bytes in another dtype and length, a distance string; or a sibling function with the same leading "
+                  "arguments); 30% caller scribbles over the result and the lists it passed; rasters 5..12 cells wide (24..48 for "
+                  "some focal), float/int dtypes, NaN cells, numpy or dask chunked, cell size by `res` attribute or (40%) by "
+                  "coordinates only, shared objects reused between calls, and rasters DERIVED from shared objects by attrs-preserving "
+                  "xarray operations (strided overview, window, coordinates rescaled to other units); seeds of the generators "
+                  "include 0; proximity targets as lists and as arrays of six dtypes; one history per run on >= 250 000-cell "
+                  "rasters (two or three calls, the first repeated) under 1 and 16 threads); every non-perturber call of the "
+                  f"session under each of {configs} threads is compared bit-for-bit with the same call in a fresh interpreter -- on "
+                  "the snapshot of its arguments, or, for derived rasters, on arguments built and derived from scratch; "
+                  "non-trivial = a call at position >= 1 of its history or under more than one thread")
+        r.trusted.append("harness/facts_effects.py (Python ast -> Gen/Effects.lean); subprocess isolation of the 'fresh' runs "
+                         "(a fresh call = a child forked from a process that has imported the library and called nothing)")
         r.assumptions.append("summaries are syntactic: effects reached through dynamic dispatch, C extensions or numba/dask internals "
                              "are invisible to them; iterations of a parallel loop are treated as atomic")
         # corpus first
@@ -1190,8 +1810,9 @@ def run(r, budget=None, focus=None, histories=None):
                 r.case(dict(corpus=c.get("fn")), nontrivial=True, tags=["corpus"])
                 if still_fails(lab, c, f"corpus{lab.n}"):
                     r.fail(f"{c['kind']}:{c['fn']}", "corpus case still fails", c)
+        big = None
         if histories is None:
-            generator_oracle(r, {"quick": 6, "thorough": 30}[tier])
+            generator_oracle(r, {"quick": 8, "thorough": 30}[tier])
             # every run has the seeded generators in its first history; the other families rotate with the seed so
             # that a thorough run (and any few quick seeds) covers all of them
             order = sorted(f for f in FAMILIES if f != "generators")
@@ -1203,37 +1824,73 @@ def run(r, budget=None, focus=None, histories=None):
                 must = (["generators"] if k == 0 else []) + [order[(k * per + j) % len(order)] for j in range(per)]
                 must = [m for m in must if m != "viewshed" or tier == "thorough" or k == 0]
                 hs.append(gen_history(r.rng, max_len, focus=focus, allow_viewshed=(tier == "thorough" or k == 0), must=must))
+            if not budget:
+                big = gen_big_history(r.rng, n_calls={"quick": 2, "thorough": 5}[tier])
         else:
             hs = histories
         futs = [lab.orch.submit(check_history, lab, h, f"h{k}-{lab.n}", configs_for(k)) for k, h in enumerate(hs)]
+        if big:
+            hs = hs + [big]
+            futs.append(lab.orch.submit(check_history, lab, big, f"big-{lab.n}", [1, 16] if tier == "quick" else [1, 4, 16]))
         for k, (h, f) in enumerate(zip(hs, futs)):
             fails = f.result()
             r.tag("histories")
             r.tag("history-calls", len(h["history"]))
+            for sp in h["history"]:
+                if sp.get("related"):
+                    r.tag("related:" + sp["related"])
+                if sp.get("size"):
+                    r.tag("size:" + sp["size"])
             report(lab, h, f"h{k}", fails, configs)
-        r.extra["fresh_processes"] = lab.n
+        r.extra["fresh_processes"] = r.extra.get("fresh_processes", 0) + lab.n
     finally:
         lab.close()
 
 
 def search(r):
-    """an obligation or the correspondence broke: concentrate histories on the functions whose facts flipped"""
+    """an obligation or the correspondence broke: derive histories from what the broken summaries say -- which shared cell
+    is written by whom and read by whom, which kernel became parallel and who reaches it -- before random histories"""
     lab = Lab(r)
     try:
-        bad, par, fams = suspects(lab)
-        r.notes.append(f"search: summaries no longer noStale/confined: {bad[:8]}; parallel/cached kernels: {par[:8]}; families {fams}")
+        sus = suspects(lab)
+        r.notes.append(f"search: summaries no longer noStale/confined: {sus['bad'][:8]}; parallel/cached kernels: {sus['par'][:8]} reached "
+                       f"by {sus['reach'][:6]}; exposed cells: { {c: (v['writers'][:4], v['readers'][:4]) for c, v in list(sus['cells'].items())[:6]} }; "
+                       f"families {sus['fams']}")
     finally:
         lab.close()
     generator_oracle(r, 12)
     if r.failures:
         return
-    # 1. hammer each suspect function: many calls of it, defaults relied upon, shared rasters
+    rng = r.rng
+    # 0. kernels that became parallel / cached: the functions reaching them on large rasters, repeated, 1 vs many threads
+    if sus["reach"]:
+        fns = sus["reach"][:6]
+        hs = [h for h in (gen_big_history(rng, fns=fns, n_calls=min(3, len(fns))) for _ in range(2)) if h]
+        if hs:
+            r.tag("targeted-histories:kernels", len(hs))
+            run(r, budget=(len(hs), 4), histories=hs, configs_of=lambda k: [1, 16, 4])
+            if r.failures:
+                return
+    # 1. per exposed cell: a writer, then its readers with repeated / equal-key / sibling / derived arguments
+    targeted = []
+    for cell, v in list(sus["cells"].items())[:4]:
+        readers = [f for f in v["readers"] if f in sus["bad"]] or v["readers"]
+        for _ in range({"quick": 2, "thorough": 4}[r.tier]):
+            h = gen_cell_history(rng, cell, v["writers"][:6], readers[:6])
+            if h:
+                targeted.append(h)
+    if targeted:
+        r.tag("targeted-histories:cells", len(targeted))
+        run(r, budget=(len(targeted), 20), histories=targeted, configs_of=lambda k: [1, 4] if k % 2 else [1, 16])
+        if r.failures:
+            return
+    # 2. hammer each suspect function: many calls of it, defaults relied upon, shared rasters
     n = {"quick": 14, "thorough": 30}[r.tier]
     per = {"quick": 2, "thorough": 4}[r.tier]
     targeted = []
-    for fn in [f for f in bad if family_of(f) in FAMILIES][:4]:
+    for fn in [f for f in sus["bad"] if family_of(f) in FAMILIES][:4]:
         for _ in range(per):
-            h = gen_targeted_history(r.rng, n, fn)
+            h = gen_targeted_history(rng, n, fn)
             if h:
                 targeted.append(h)
     if targeted:
@@ -1241,9 +1898,9 @@ def search(r):
         run(r, budget=(len(targeted), n), histories=targeted)
         if r.failures:
             return
-    # 2. histories concentrated on the suspect families
+    # 3. histories concentrated on the suspect families
     for round_ in range({"quick": 1, "thorough": 3}[r.tier]):
-        run(r, budget=({"quick": 4, "thorough": 8}[r.tier], {"quick": 14, "thorough": 40}[r.tier]), focus=fams or None)
+        run(r, budget=({"quick": 4, "thorough": 8}[r.tier], {"quick": 14, "thorough": 40}[r.tier]), focus=sus["fams"] or None)
         if r.failures:
             return
 
